@@ -575,7 +575,15 @@ class SSHStreamSession(Generic[AnyStr]):
                         self._eof_received or break_read:
                     break
 
-                await self._block_read(datatype)
+                try:
+                    await self._block_read(datatype)
+                except asyncio.CancelledError:
+                    # Put back the data collected so far, so it isn't
+                    # lost when the caller gives up on this read
+                    recv_buf[:0] = data
+                    self._recv_buf_len += sum(len(buf) for buf in data)
+                    self._maybe_pause_reading()
+                    raise
 
         result = cast(AnyStr, '' if self._encoding else b'').join(data)
 
